@@ -46,7 +46,7 @@ def correspondence(ctx, batch):
             if n <= 4 or rng.random() < 0.2:
                 inputs, kedges = table_inputs(n, edges)
                 stages.stage_pipeline(batch, inputs, registry, [stages.TableCmp(kedges)], parts=("merge", "replaces"))
-    for inputs, cmps in list(boundary_cases()) + list(order_cases()) + list(fieldless_cases()):
+    for inputs, cmps in list(boundary_cases()) + list(order_cases()) + list(fieldless_cases()) + list(duplicate_class_cases()):
         stages.stage_pipeline(batch, inputs, registry, cmps, parts=("merge", "replaces"))
         ctx.count("boundary_cases")
     for _ in range(ctx.n(80, 1500)):
@@ -116,6 +116,20 @@ def order_cases():
                        [ModelFieldsNumberMatch(10), ModelFieldsPercentMatch(.7), ModelFieldsEquals()]):
             for perm in itertools.permutations(policy):
                 yield [("Root", [{"ha": first, "hb": second}])], list(perm)
+
+
+def duplicate_class_cases():
+    """policies that hold the same comparator class twice with different thresholds, in both orders: a pair related by
+    the more permissive one only is merged ("any comparator relates the pair")"""
+    a = {"f%d" % i: 1 for i in range(4)}                       # {f0..f3}
+    b = {"f0": 1, "f1": 1, "g0": 1, "g1": 1}                   # shares 2 of 6: ratio 1/3; 2 common keys
+    c = {"f0": 1, "f1": 1, "f2": 1, "h0": 1}                   # with a: 3 of 5 = 0.6; 3 common keys
+    for policy in ([ModelFieldsPercentMatch(.5), ModelFieldsPercentMatch(.9)], [ModelFieldsPercentMatch(.9), ModelFieldsPercentMatch(.5)],
+                   [ModelFieldsNumberMatch(2), ModelFieldsNumberMatch(6)], [ModelFieldsNumberMatch(6), ModelFieldsNumberMatch(2)],
+                   [ModelFieldsNumberMatch(3), ModelFieldsEquals(), ModelFieldsNumberMatch(9)],
+                   [ModelFieldsPercentMatch(.3), ModelFieldsNumberMatch(9), ModelFieldsPercentMatch(.95)]):
+        yield [("Root", [{"ha": a, "hb": b, "hc": c}])], policy
+        yield [("Root", [{"hc": c, "ha": a}])], policy
 
 
 def fieldless_cases():
@@ -295,7 +309,7 @@ def falsify(ctx):
                 continue
             inputs, kedges = table_inputs(n, edges)
             cases.append((inputs, [stages.TableCmp(kedges)], bool(edges)))
-    for inputs, cmps in list(boundary_cases()) + list(order_cases()) + list(fieldless_cases()):
+    for inputs, cmps in list(boundary_cases()) + list(order_cases()) + list(fieldless_cases()) + list(duplicate_class_cases()):
         cases.append((inputs, cmps, True))
     for _ in range(ctx.n(150, 3000)):
         cases.append(([("Root", [threshold_sample(rng)])], threshold_cmps(rng), True))
